@@ -120,6 +120,9 @@ pub struct Shared {
     pub armed: RefCell<Vec<Armed>>,
     /// one-shot: the first handler of observer slot .0 subscribes on observer slot .1
     pub armed_sub: RefCell<Option<(usize, usize)>>,
+    /// one-shot: the first handler of this observer slot drops every handle of that observer
+    pub armed_drop_self: Cell<Option<usize>>,
+    pub dropped_self_in: Cell<Option<(usize, u32)>>,
     /// one-shot injected panic: (which user function, how many matching invocations to skip)
     pub crash: RefCell<Option<(CrashAt, u32)>>,
     pub crashed: Cell<Option<CrashAt>>,
@@ -387,6 +390,7 @@ pub enum Action {
     DropVar(usize),
     ArmPanic(CrashAt, u32),
     ArmHandlerSubscribe(usize, usize),
+    ArmHandlerDropSelf(usize),
     DropState,
     DropVarHandle(usize),
     Stabilise,
@@ -437,6 +441,7 @@ pub struct Ops {
     pub crash_points: Vec<(CrashAt, u32)>,
     pub drop_state: bool,
     pub arm_handler_subscribe: bool,
+    pub arm_handler_drop_self: bool,
     pub drop_var_handle: bool,
 }
 
@@ -504,6 +509,7 @@ pub struct World {
     pub dropped_model: BTreeMap<usize, SV>,
     pub crash_armed_once: bool,
     pub armed_sub_once: bool,
+    pub armed_drop_once: bool,
     pub poisoned: bool,
     /// strong-count probes of every node built from a spec
     pub weaks: Vec<Box<dyn Fn() -> usize>>,
@@ -564,6 +570,8 @@ impl World {
             on_invoke: RefCell::new(None),
             armed: RefCell::new(vec![]),
             armed_sub: RefCell::new(None),
+            armed_drop_self: Cell::new(None),
+            dropped_self_in: Cell::new(None),
             crash: RefCell::new(None),
             crashed: Cell::new(None),
             cut_eq: Cell::new(false),
@@ -593,6 +601,7 @@ impl World {
             dropped_model: BTreeMap::new(),
             crash_armed_once: false,
             armed_sub_once: false,
+            armed_drop_once: false,
             poisoned: false,
             weaks: vec![],
             weak_state,
@@ -1537,6 +1546,13 @@ impl World {
         if self.dirty {
             v.push(Action::Stabilise);
         }
+        if o.arm_handler_drop_self && !self.armed_drop_once {
+            for (k, s) in obs.iter().enumerate() {
+                if !s.pinned && !s.handles.is_empty() && s.subs.iter().any(|x| x.active) {
+                    v.push(Action::ArmHandlerDropSelf(k));
+                }
+            }
+        }
         if o.arm_handler_subscribe && self.sh.armed_sub.borrow().is_none() && !self.armed_sub_once {
             for (k, s) in obs.iter().enumerate() {
                 if s.subs.iter().any(|x| x.active) {
@@ -1735,6 +1751,11 @@ impl World {
                 self.arms_used += 1;
                 self.dirty = true;
             }
+            Action::ArmHandlerDropSelf(k) => {
+                self.sh.armed_drop_self.set(Some(*k));
+                self.armed_drop_once = true;
+                self.dirty = true;
+            }
             Action::ArmHandlerSubscribe(from, to) => {
                 *self.sh.armed_sub.borrow_mut() = Some((*from, *to));
                 self.armed_sub_once = true;
@@ -1852,6 +1873,21 @@ impl World {
                     let reads_all: Vec<(usize, Result<SV, ObserverError>)> = weak_obs.upgrade().and_then(|o| o.try_borrow().ok().map(|o| o.iter().enumerate().filter_map(|(i, s)| s.handles.first().map(|h| (i, h.try_get_value()))).collect())).unwrap_or_default();
                     sh.updates.borrow_mut().push(UpdLog { round: sh.round.get(), during_stabilise_call: sh.in_stabilise.get(), slot, sub: j, upd: u.cloned(), read, reads_all });
                     sh.fire(Trigger::Handler(slot), true);
+                    if sh.armed_drop_self.get() == Some(slot) {
+                        sh.armed_drop_self.set(None);
+                        if let Some(o) = weak_obs.upgrade() {
+                            // a one-shot observer: its last handle is dropped from inside its own callback
+                            let hs: Vec<Observer<SV>> = o.borrow_mut()[slot].handles.drain(..).collect();
+                            drop(hs);
+                            let mut ob = o.borrow_mut();
+                            ob[slot].st = OSt::Dead;
+                            for sub in ob[slot].subs.iter_mut() {
+                                sub.active = false;
+                            }
+                            cover("observer-dropped-inside-its-own-callback");
+                            sh.dropped_self_in.set(Some((slot, sh.round.get())));
+                        }
+                    }
                     let arm = {
                         let mut a = sh.armed_sub.borrow_mut();
                         if a.map_or(false, |(from, _)| from == slot) { a.take() } else { None }
@@ -2048,6 +2084,13 @@ impl World {
             } else {
                 None
             };
+            if self.cfg.mon.c10 {
+                if let Err(e) = &got {
+                    if *e != ObserverError::ObservingInvalid {
+                        violation("C10/observer-unusable-after-its-first-stabilise", format!("observer slot {k} was created before stabilise #{round} and is still held, but returns Err({e:?}) after it"));
+                    }
+                }
+            }
             let kind = if smuggled.is_some() { "ScopeNode" } else { self.nodes[node].spec.kind_name() };
             if self.cfg.mon.c01 && smuggled.is_none() {
                 match (&got, &want) {
@@ -2182,7 +2225,7 @@ impl World {
             // callbacks for observers that are not in use (dead, or never promoted)
             for u in &updates {
                 let st = self.obs.borrow()[u.slot].st;
-                if st != OSt::InUse {
+                if st != OSt::InUse && self.sh.dropped_self_in.get() != Some((u.slot, round)) {
                     violation(&format!("{pfx}/unexpected-callback/observer-not-in-use"), format!("slot {} ({st:?}) got {:?} in stabilise #{round}", u.slot, u.upd));
                 }
             }
@@ -2242,9 +2285,13 @@ impl World {
             }
         }
         if self.cfg.mon.c05 {
+            // observers alive for the calls of this stabilise: those alive when it was called (an observer
+            // may end during it, e.g. dropped from inside its own callback) and those alive at its end
             let roots_end = self.live_roots();
+            let mut roots_both = roots.clone();
+            roots_both.extend(roots_end.iter().copied());
             let lb = self.sh.last_branch.borrow().clone();
-            let cone_end = self.cone(&roots_end, &|b| lb.get(&b).copied());
+            let cone_end = self.cone(&roots_both, &|b| lb.get(&b).copied());
             if roots.is_empty() && roots_end.is_empty() {
                 cover("stabilise-with-no-live-observer");
                 if !log.is_empty() || self.state.as_ref().unwrap().stats().recomputed != recomputed_before {
@@ -2271,7 +2318,8 @@ impl World {
         if self.cfg.mon.c08 {
             self.c08_after_stabilise(round);
         }
-        if self.cfg.mon.c12 {
+        if self.cfg.mon.c12 && self.sh.dropped_self_in.get().map_or(true, |(_, r)| r != round) {
+            // (an observer dropped from inside its own callback is unlinked by the next stabilise)
             cover("leak-check-after-stabilise");
             self.leak_check(&format!("after stabilise #{round}"));
         }
